@@ -63,6 +63,26 @@ def round0_account(o, gave_up=False):
     extra = [b for b in cnt if b not in range(nb)]
     if extra:
         return f"trials labelled with bracket(s) {extra} outside the schedule's {nb} brackets"
+    # later rounds: when every trial of round r of bracket b (over all sweeps) is COMPLETED and the round is full, the best
+    # size(b, r+1) of them are promoted one by one - round r+1 is full as well when the search is over
+    byround = collections.defaultdict(list)
+    for t in o.trials.values():
+        v = t.hyperparameters.values
+        if "tuner/round" in v:
+            byround[(v.get("tuner/bracket"), v.get("tuner/round"))].append(t)
+    for b in range(nb):
+        for r in range(b):
+            full = o.hyperband_iterations * o._get_size(b, r)
+            nxt = o.hyperband_iterations * o._get_size(b, r + 1)
+            ts = byround.get((b, r), [])
+            if len(ts) > full:
+                return f"{len(ts)} trials labelled bracket {b} round {r}, the schedule has {full}"
+            if len(ts) == full and all(t.status == "COMPLETED" for t in ts):
+                if len(byround.get((b, r + 1), [])) < nxt:
+                    return (f"the search is over although round {r} of bracket {b} is full and all of its {full} trials are COMPLETED while round {r + 1} holds "
+                            f"{len(byround.get((b, r + 1), []))} of {nxt} trials: promotions that were due never happened (it ended early)")
+            else:
+                break
     return None
 
 
